@@ -28,6 +28,13 @@ CORPUS = os.path.join(core.ROOT, "corpus", "corpus.json")
 WORDS = ["a%d" % i for i in range(30)] + ["alpha", "b", "zeta9", "k", "omega", "v1", "tmp", "acc", "n", "idx", "total", "x", "yy", "q7", "left", "right", "m", "res", "item", "w", "delta", "s0", "c", "u2"]
 
 
+# (literal, subject, expected test() result): each needs well over 100 matcher steps
+REGEX_POOL = [
+    ("/(a+)+b/", "aaaaaaaaac", 0), ("/(x|xx)+y/", "xxxxxxxxxxxz", 0), ("/^(\\w+\\s?)+$/", "ab cd ef gh ij!", 0),
+    ("/(a*)*b/", "aaaaaaaab", 1), ("/(?:a|b)*c/", "abababababababababc", 1), ("/(\\d+)+x/", "1234567890y", 0),
+]
+
+
 class Gen:
     """Closure-heavy programs whose result is known by construction."""
 
@@ -112,6 +119,32 @@ class Gen:
         else:
             lines.append("function %s(%s){ var %s = %s + 1; var %s = typeof %s; return %s + ':' + %s; }" % (selfn, o1, o2, o1, selfn + "_t", selfn, selfn + "_t", o2))
             inner_vals.append(("%s(4)" % selfn, "function:5"))
+        # a function all of whose captured locals are captured by one inner function (and nothing else):
+        # the inner closure's free variables are exactly the parent's cell variables, in whatever order
+        for _rep in range(2):
+            fn2 = self.names(1)[0]
+            vs = self.names(r.randint(2, 4))
+            vals = r.sample(range(1, 10), len(vs))
+            pw = [10 ** i for i in range(len(vs))]
+            decl_order2 = list(zip(vs, vals))
+            r.shuffle(decl_order2)
+            use_order = list(zip(vs, pw))
+            r.shuffle(use_order)
+            form2 = r.choice(["function", "arrow"])
+            body2 = " + ".join("%s * %d" % (v, w) for v, w in use_order)
+            inner2 = ("function(){ return %s; }" % body2) if form2 == "function" else ("() => %s" % body2)
+            # a sibling closure that captures a subset first, in another order: the parent's capture set and the
+            # capture-all closure's own free-variable set are then built in different insertion orders
+            sub = list(vs)
+            r.shuffle(sub)
+            sub = sub[: max(1, len(sub) - 1)]
+            sib = "var in1 = function(){ return %s; };" % " + ".join(reversed(sub))
+            lines.append("var %s = function(){ %s %s var in2 = %s; %s = %s + 0; return in2() + in1() * 0; };" % (
+                fn2, " ".join("var %s = %d;" % (v, x) for v, x in decl_order2), sib, inner2, vs[0], vs[0]))
+            inner_vals.append(("%s()" % fn2, sum(x * w for (v, x), w in zip(zip(vs, vals), pw))))
+        # regex literals from a small shared pool (the same literal appears in many programs of the batch)
+        rx = r.choice(REGEX_POOL)
+        inner_vals.append(("(%s.test('%s') ? 1 : 0)" % (rx[0], rx[1]), rx[2]))
         order = list(range(len(inner_vals)))
         r.shuffle(order)
         ret = "[" + ", ".join(inner_vals[i][0] for i in order) + "]"
@@ -195,7 +228,8 @@ def main(chk):
         chk.classify("generated" if gen else "corpus")
         case = {"src": src[:1500], "kind": "generated" if gen else "corpus"}
         bad = False
-        if any(results[c[0]][i][0][:2] in (["exc", "TimeLimitError"], ["hang"]) or results[c[0]][i][0][0] == "hang" for c in configs):
+        if not gen and any(results[c[0]][i][0][:2] in (["exc", "TimeLimitError"], ["hang"]) or results[c[0]][i][0][0] == "hang" for c in configs):
+            # (generated programs run for milliseconds: a time limit there is never legitimate and is judged below)
             # a program stopped by the (wall-clock) time limit is by definition clock dependent
             chk.excluded["program reaches the time limit"] += 1
             continue
